@@ -7,39 +7,43 @@ ASSUMPTIONS = ["float64 rounding outside the theorems; inputs with condition num
 
 
 def gh_marginal(x_keep, dims, mu, S, n=40):
-    """∫ N(x; mu, S) d(dropped coordinates) by tensor Gauss–Hermite on the dropped block (≤ 2 dropped)"""
+    """∫ N(x; mu, S) d(dropped coordinates) by tensor Gauss–Hermite on the dropped block (≤ 2 dropped).
+    The nodes are placed where the integrand lives (centre and scale of the dropped block given the kept coordinates,
+    computed here with NumPy, widened by 1.5): the placement only affects the accuracy of the rule, the value it converges to
+    is the integral of the joint density, whatever formula the library uses."""
     D = len(mu)
-    drop = [d for d in range(D) if d not in list(dims)]
+    dims = list(dims)
+    drop = [d for d in range(D) if d not in dims]
     if not drop:
-        perm_x = np.zeros(D); perm_x[list(dims)] = x_keep
+        perm_x = np.zeros(D); perm_x[dims] = x_keep
         return float(np.exp(normal_logpdf(perm_x[None], mu, S)[0]))
+    Skk = S[np.ix_(dims, dims)]; Sdk = S[np.ix_(drop, dims)]
+    G = Sdk @ np.linalg.inv(Skk)
+    c = mu[drop] + G @ (np.asarray(x_keep) - mu[dims])
+    C = S[np.ix_(drop, drop)] - G @ Sdk.T
+    Lc = np.linalg.cholesky(C) * 1.5
     t, w = np.polynomial.hermite.hermgauss(n)
-    # integrate against a wide proposal N(mu_d, 4 S_dd) to be independent of the conditional formula
-    sd = np.sqrt(np.diag(S)[drop]) * 2.0
-    grids = np.meshgrid(*[mu[d] + np.sqrt(2) * s * t for d, s in zip(drop, sd)], indexing="ij")
-    wts = np.meshgrid(*[w for _ in drop], indexing="ij")
-    W = np.ones_like(grids[0])
-    for ww in wts:
-        W = W * ww
-    pts = np.zeros((grids[0].size, D))
-    pts[:, list(dims)] = x_keep
-    for d, g in zip(drop, grids):
-        pts[:, d] = g.reshape(-1)
+    T = np.stack(np.meshgrid(*[t for _ in drop], indexing="ij"), axis=-1).reshape(-1, len(drop))
+    Wt = np.prod(np.stack(np.meshgrid(*[w for _ in drop], indexing="ij"), axis=-1).reshape(-1, len(drop)), axis=1)
+    Z = c[None] + np.sqrt(2) * T @ Lc.T
+    pts = np.zeros((Z.shape[0], D))
+    pts[:, dims] = x_keep
+    pts[:, drop] = Z
     logp = normal_logpdf(pts, mu, S)
-    # ∫ f(z) dz = ∫ f(mu+√2 s t) √2 s e^{t²} e^{-t²} dt
-    jac = np.ones(grids[0].size)
-    for d, s, g in zip(drop, sd, grids):
-        tt = (g.reshape(-1) - mu[d]) / (np.sqrt(2) * s)
-        jac = jac * np.sqrt(2) * s * np.exp(tt ** 2)
-    return float(np.sum(W.reshape(-1) * jac * np.exp(logp)))
+    # ∫ f(z) dz = ∫ f(c + √2 L t) |det √2 L| e^{|t|²} e^{-|t|²} dt
+    jac = (np.sqrt(2) ** len(drop)) * abs(np.linalg.det(Lc)) * np.exp(np.sum(T ** 2, axis=1))
+    return float(np.sum(Wt * jac * np.exp(logp)))
 
 
-def case_marginal(R, D, diag, full):
-    label = f"get_marginal/R{R}/D{D}/diag{int(diag)}/full{int(full)}"
+def case_marginal(R, D, diag, full, hist=False):
+    label = f"get_marginal/R{R}/D{D}/diag{int(diag)}/full{int(full)}" + ("/hist" if hist else "")
     def fn(m):
         rng = gen.rng_path(m.seed, label)
         fails = []
         p = mk_pdf(m, rng, R, D, diag=diag)
+        if hist:
+            m.get_marginal(p.reg, rng.permutation(D)[:max(1, D - 1)])
+            mutate_pdf(m, rng, p, diag=diag)
         dims = rng.permutation(D) if full else gen.subset(rng, D, proper=(D > 1))
         params = dict(R=R, D=D, dims=[int(d) for d in dims], diag=diag)
         mg = m.get_marginal(p.reg, dims)
@@ -60,12 +64,14 @@ def case_marginal(R, D, diag, full):
     return Case(label, fn)
 
 
-def case_linear_sum(R, D, K, has_b, diag):
-    label = f"linear_sum/R{R}/D{D}/K{K}/b{int(has_b)}/diag{int(diag)}"
+def case_linear_sum(R, D, K, has_b, diag, hist=False):
+    label = f"linear_sum/R{R}/D{D}/K{K}/b{int(has_b)}/diag{int(diag)}" + ("/hist" if hist else "")
     def fn(m):
         rng = gen.rng_path(m.seed, label)
         fails = []
         p = mk_pdf(m, rng, R, D, diag=diag)
+        if hist:
+            mutate_pdf(m, rng, p, diag=diag)
         # full row rank with bounded condition number
         W = np.stack([(gen.orth(rng, D)[:K] * rng.uniform(0.5, 2.0, (K, 1))) for _ in range(R)])
         b = rng.standard_normal((R, K)) if has_b else None
@@ -93,4 +99,7 @@ def cases(seed, tier):
         K = int(rng.integers(1, D + 1))
         out.append(case_linear_sum(R, D, K, bool(i % 2), bool((i // 2) % 2)))
         out.append(case_linear_sum(R, D, D, bool((i + 1) % 2), False))
+    for (R, D, dg) in [(2, 3, False), (3, 2, True)] + ([(2, 4, False), (1, 3, True)] if tier != "quick" else []):
+        out.append(case_marginal(R, D, dg, False, hist=True))
+        out.append(case_linear_sum(R, D, max(1, D - 1), True, dg, hist=True))
     return seeded(out, seed)
